@@ -702,7 +702,7 @@ func (e *Engine) mapEverWritten(v *types.Var) bool {
 // proves it - so every send statement on such a channel, every close of one, and every access to a protected field
 // anywhere in the package (test files aside) has to be inside a function that is under contract for this property.
 func (e *Engine) SweepConcurrency(prop string) {
-	if e.cs == nil || (len(e.cs.ChanInvs) == 0 && len(e.cs.LockInvs) == 0) {
+	if e.cs == nil || (len(e.cs.ChanInvs) == 0 && len(e.cs.LockInvs) == 0 && len(e.cs.NeverClosed) == 0 && len(e.cs.Closable) == 0) {
 		return
 	}
 	under := map[string]bool{}
@@ -715,6 +715,12 @@ func (e *Engine) SweepConcurrency(prop string) {
 	}
 	for _, li := range e.cs.LockInvs {
 		pkgs[li.Pkg] = true
+	}
+	for k := range e.cs.NeverClosed {
+		pkgs[k[:strings.LastIndex(k, ".")]] = true
+	}
+	for k := range e.cs.Closable {
+		pkgs[k[:strings.LastIndex(k, ".")]] = true
 	}
 	n := 0
 	fail := func(pkg *packages.Package, pos token.Pos, fn, what string) {
@@ -753,6 +759,12 @@ func (e *Engine) SweepConcurrency(prop string) {
 				ast.Inspect(fd.Body, func(nd ast.Node) bool {
 					switch x := nd.(type) {
 					case *ast.SendStmt:
+						if ct, ok := pkg.TypesInfo.TypeOf(x.Chan).Underlying().(*types.Chan); ok && e.closableElem(ct.Elem()) {
+							checked++
+							if !covered {
+								fail(pkg, x.Pos(), fn, "send on a closable channel in a function that is not under contract (that the channel is still open is not proved here)")
+							}
+						}
 						if ct, ok := pkg.TypesInfo.TypeOf(x.Chan).Underlying().(*types.Chan); ok {
 							if ci := e.chanInvForElem(ct.Elem()); ci != nil {
 								checked++
@@ -767,6 +779,16 @@ func (e *Engine) SweepConcurrency(prop string) {
 								if ct, ok := pkg.TypesInfo.TypeOf(x.Args[0]).Underlying().(*types.Chan); ok {
 									if ci := e.chanInvForElem(ct.Elem()); ci != nil {
 										fail(pkg, x.Pos(), fn, "close of a channel of "+ci.Elem+": receivers assume the channel invariant of every value received, a closed channel delivers zero values")
+									}
+									if e.neverClosedElem(ct.Elem()) {
+										checked++
+										fail(pkg, x.Pos(), fn, "close of a channel whose element type is declared neverclosed: goroutines send on such channels without holding any lock")
+									}
+									if e.closableElem(ct.Elem()) {
+										checked++
+										if !covered {
+											fail(pkg, x.Pos(), fn, "close of a closable channel in a function that is not under contract (ownership and single close are not proved here)")
+										}
 									}
 								}
 							}
